@@ -1,2 +1,2 @@
 (* C16 -- all proofs *)
-From PV Require Export C16.Lib C16.ProofsErr C16.ProofsFresh.
+From PV Require Export C16.Lib C16.ProofsErr C16.ProofsFresh C16.ProofsValid C16.ProofsSeq C16.ProofsTables.
